@@ -19,6 +19,8 @@ GLYPH = {"add": "+", "sub": "-", "mul": "×", "div": "÷", "pow": "^", "cat": "&
 CLASS_MEMBERS = {"eq": ["eq", "ne", "lt", "gt", "le", "ge"], "cat": ["cat"], "add": ["add", "sub"], "sub": ["sub", "add"], "mul": ["mul", "div"],
                  "div": ["div", "mul"], "pow": ["pow"]}
 NUMBERS = [0, 1, 12, 7, 1000000, 0.5, 1234.5678, 0.001, 1e-7, 2.5e-7, 123456789012345, 99.99, 1.25e20, 1e22, 3.0e16]
+# integer literals beyond 2^53: Numbers keeps them exactly in the decimal128 coefficient next to a double that is only close
+BIGINTS = [2 ** 53 + 1, 9999999999999999, 2 ** 63 - 1, 2 ** 60 + 1, 10 ** 18 + 1, 123456789012345678]
 STRINGS = ["abc", 'with "quote"', "comma, paren ) (", "", "ünï", "it's", "semi;colon", "{brace}", "a&b=c"]
 BAD_FUNCS = {"DATE"}
 
@@ -157,7 +159,12 @@ def build_nodes(prog, rng, host):
     stack = []      # per stack entry: list of literals in text order
     for nd in prog:
         if nd == "n":
-            v = rng.choice(NUMBERS)
+            v = rng.choice(NUMBERS) if rng.random() < 0.9 else rng.choice(BIGINTS)
+            if v in BIGINTS:
+                nodes.append({"AST_node_type": "NUMBER_NODE", "AST_number_node_number": float(v), "AST_number_node_decimal_low": v,
+                              "AST_number_node_decimal_high": 0x3040000000000000})
+                stack.append([("n", Decimal(v))])
+                continue
             if float(v).is_integer() and abs(v) < 1e15:
                 nodes.append({"AST_node_type": "NUMBER_NODE", "AST_number_node_number": int(v), "AST_number_node_decimal_low": int(v),
                               "AST_number_node_decimal_high": 0x3040000000000000})
@@ -350,7 +357,8 @@ def judge_case(ctx, prog, render, lits, text, text2, exc):
         diffs = [(g, w) for g, w in zip(got_lits + [None] * len(want_lits), want_lits + [None] * len(got_lits)) if g != w]
 
         def is_big(d):
-            return bool(d and d[1] and d[1][0] == "n" and "e+" in repr(float(d[1][1])))
+            # (F20 is about literals printed from their double; the exact integer literals of BIGINTS are printed from the coefficient)
+            return bool(d and d[1] and d[1][0] == "n" and "e+" in repr(float(d[1][1])) and int(d[1][1]) not in BIGINTS)
         # a literal of the kind recorded as F20 must not hide another wrong literal of the same formula
         diff = next((d for d in diffs if not is_big(d)), diffs[0] if diffs else None)
         big = is_big(diff)
